@@ -40,4 +40,5 @@ func (g *gen) writeParams(path string) {
 func (g *gen) run() {
 	g.lockTable()
 	g.tables()
+	g.schemas()
 }
